@@ -18,12 +18,15 @@ CLASS_FIELDS = {
     "HRGRule": {"lhs": "EdgeLabel", "rhs": "Graph"},
     "LabelTable": {"_node_labels": "dict[str,NodeLabel]", "_edge_labels": "dict[str,EdgeLabel]"},
     "Interp": {"_node_labels": "dict[str,NodeLabel]", "_edge_labels": "dict[str,EdgeLabel]", **_INTERP},
+    # read-only view of an HRG: label tables and the flat sequence of its rules (see contracts/utils.py:
+    # HRG.all_rules / HRG.nonterminals are used through *assumed* contracts over this view)
+    "HRGView": {"_node_labels": "dict[str,NodeLabel]", "_edge_labels": "dict[str,EdgeLabel]", "_rule_seq": "seq[RuleV]"},
     "FiniteDomain": {"values": "list[PyVal]", "_value_index": "dict[PyVal,int]"},
     "RangeDomain": {"_size": "int"},
 }
 
 # concrete class used for method resolution when the static type is one of the pseudo classes above
-RESOLVE_AS = {"LabelTable": "Graph", "Interp": "FactorGraph"}
+RESOLVE_AS = {"LabelTable": "Graph", "Interp": "FactorGraph", "HRGView": "HRG"}
 
 
 def check_schema(program) -> list:
